@@ -1716,6 +1716,15 @@ func (in *inliner) emitSite0(s *inlSite) (rope, bool) {
 					if ro == nil || mutatedAddr(info, body, ro) {
 						continue
 					}
+					// the local becomes the caller's target: only when both have the result's type (a
+					// *T local returned as an interface is a conversion, not a rename — the zero value
+					// of the local is a typed nil, the zero value of the target is not)
+					if j >= sig.Results().Len() || !types.Identical(ro.Type(), sig.Results().At(j).Type()) {
+						continue
+					}
+					if lt := s.caller.Info().TypeOf(as.Lhs[j]); as.Tok != token.DEFINE && (lt == nil || !types.Identical(lt, ro.Type())) {
+						continue
+					}
 					// a named result: declared by the signature, starts at its zero value
 					isNamedRes := false
 					if ft.Results != nil {
